@@ -15,7 +15,7 @@ import re
 BUILTIN = {'_Bool', 'char', 'signed char', 'unsigned char', 'short', 'unsigned short', 'int',
            'uint32_t', 'int64_t', 'uint64_t', 'float', 'double', 'long double', 'void',
            'str_t', 'mutex_t', 'lock_t', 'exc_t', 'function_t', 'lambda_t', 'thread_t',
-           'condvar_t', 'log_t', 'nullopt_t', 'nullptr_t', 'tp_t', 'dur_ns_t', 'dur_s_t', 'dur_ms_t',
+           'condvar_t', 'log_t', 'initlist_t', 'nullopt_t', 'nullptr_t', 'tp_t', 'dur_ns_t', 'dur_s_t', 'dur_ms_t',
            'dur_us_t', 'hnd_t'}
 
 
